@@ -117,9 +117,9 @@ Section Inv.
 Variables cap cc n kk : N.
 
 (* what a run in its write phase knows: there is a current ticket; the SET tickets have credit *)
-Definition RInv (hp : N) (k : kctx) (r : run) : Prop :=
+Definition RInv (hp : N) (k : kctx) (r : trun) : Prop :=
   rw r < rm r /\ rv r <= rm r /\ (rv r = 0 \/ rt r + rv r <= hp + cap) /\
-  match k with KOne _ => True | KBatch b => bsent b + rm r <= btotal b end.
+  match k with KOne _ => rm r = 1 | KBatch b => bsent b + rm r <= btotal b end.
 Definition resident (idf : N -> N) (t : N) : Prop := idf (ent n (cid_of cc t)) = cid_of cc t.
 
 (* what a producer pc knows (the observed values that license its next step) *)
@@ -130,7 +130,7 @@ Definition PInv (hp ret : N) (idf : N -> N) (pc : ppc_t) : Prop :=
   | PW0 k r => RInv hp k r /\ rw r < rv r /\ resident idf (rcur r)
   | PW1 k r => RInv hp k r /\ resident idf (rcur r)
   | PN1 k r | PN2 k r | PN3 k r =>
-      rw r = rm r /\ rv r <= rm r /\ match k with KOne _ => True | KBatch b => bsent b + rm r <= btotal b end
+      rw r = rm r /\ rv r <= rm r /\ match k with KOne _ => rm r = 1 | KBatch b => bsent b + rm r <= btotal b end
   | PB1 b | PL1 b | PC0 b | PC1 b | PC2 b _ => bsent b <= btotal b
   | PC3 b m | PC4 b _ m => 0 < m /\ bsent b + m <= btotal b
   | _ => True
